@@ -109,4 +109,6 @@ MUTATIONS += [
          old="        if isinstance(y, numpy.ndarray) and y.dtype.kind in \"iub\":", new="        if False:"),
     dict(name="revert_D45_duplicate_guard_across_calls", props=["C07"], file=DS,
          old="                    if self.__events[__rec_idx].event is __ev:", new="                    if False:"),
+    dict(name="revert_D46_backward_t_eval", props=["C18"], file=DS,
+         old="        if t_eval[0] < min(t_span[0], t_span[1]) or t_eval[-1] > max(t_span[0], t_span[1]):", new="        if t_eval[0] < t_span[0] or t_eval[-1] > t_span[1]:"),
 ]
